@@ -42,7 +42,7 @@ CONTRACTS = {
     "C06.fuse_then_contract": (
         "tensordot(a,b,axes) == tensordot(a2.fuse(axes_a), b2.fuse(axes_b), one pair) with a2,b2 = a.align_axes(b, axes); alignment keeps exactly the "
         "sectors whose contracted sub-sector occurs on the other side; the two fused indices match (table, direction, extents); "
-        "fuse strategies insert/concat (abelian), inner contraction in all three modes; abelian and fermionic",
+        "fuse strategies insert/concat (abelian; the two strategies give identical fused operands), inner contraction in all three modes; abelian and fermionic",
         "quick: exhaustive rank<=2 small scope (k>=1, every order of the contracted axes) + seeded random up to rank 4, k<=3",
     ),
     "C06.fuse_free_commutes": (
@@ -296,6 +296,7 @@ def check_fuse_then_contract(d):
         _check_aligned("a", a, a2, _expected_alignment(a, b, axa, axb), feats0, fails)
         _check_aligned("b", b, b2, _expected_alignment(b, a, axb, axa), feats0, fails)
         pa_, pb_ = min(axa), min(axb)
+        fused = {}
         for fm in ((None,) if ferm else ("insert", "concat")):
             f1 = dict(feats0, fuse_mode=fm)
             kw = {} if fm is None else {"mode": fm}
@@ -304,6 +305,7 @@ def check_fuse_then_contract(d):
             if not (ok1 and ok2):
                 fails.append(("C06.fuse_then_contract.no_exception", f"fuse: {af if not ok1 else bf}", f1))
                 continue
+            fused[fm] = (af, bf)
             if af.ndim != a.ndim - k + 1 or bf.ndim != b.ndim - k + 1:
                 fails.append(("C06.fuse_then_contract.fused_rank", f"ranks {af.ndim},{bf.ndim}", f1))
                 continue
@@ -325,6 +327,11 @@ def check_fuse_then_contract(d):
                 if not okc:
                     ob = "C06.fuse_then_contract.structure" if _is_struct_msg(msg) else "C06.fuse_then_contract.values"
                     fails.append((ob, f"direct vs fused-first ({fm},{m2}): {msg}"[:300], f2))
+        if "insert" in fused and "concat" in fused:
+            for tag, p_, q_ in (("a", fused["insert"][0], fused["concat"][0]), ("b", fused["insert"][1], fused["concat"][1])):
+                oks, msg = arrays_equal(p_, q_, exact=True, check_subinfo=True, why=True)
+                if not oks:
+                    fails.append(("C06.fuse_strategies_agree", f"{tag}.fuse(mode='insert') != {tag}.fuse(mode='concat'): {msg}"[:300], feats0))
     return {
         "fingerprint": ("ftc", spec_struct(d["a"]), spec_struct(d["b"]), repr(axes)),
         "nontrivial": bool(ref.blocks) and k >= 1,
